@@ -1,9 +1,9 @@
 package harness
 
 import (
-	"math/big"
 	"encoding/json"
 	"fmt"
+	"math/big"
 	"os/exec"
 	"strings"
 
